@@ -1,4 +1,6 @@
 import WebrtcVerif.Base.Wire
+import WebrtcVerif.Drv.C14
+import WebrtcVerif.Drv.C13
 import WebrtcVerif.Drv.C05
 import WebrtcVerif.Drv.C19
 import WebrtcVerif.Drv.C22
@@ -18,6 +20,8 @@ def runLine (toks : List String) : String :=
   | "C22" :: rest => Drv.C22.run rest
   | "C36" :: rest => Drv.C36.run rest
   | "C40" :: rest => Drv.C40.run rest
+  | "C13" :: rest => Drv.C13.run rest
+  | "C14" :: rest => Drv.C14.run rest
   | _ => "bad-op"
 
 def judgeLine (toks : List String) : String :=
@@ -29,6 +33,8 @@ def judgeLine (toks : List String) : String :=
   | "C22" :: rest => Drv.C22.judge rest out
   | "C36" :: rest => Drv.C36.judge rest out
   | "C40" :: rest => Drv.C40.judge rest out
+  | "C13" :: rest => Drv.C13.judge rest out
+  | "C14" :: rest => Drv.C14.judge rest out
   | _ => "bad-judge"
 
 partial def loop (h : IO.FS.Stream) (out : IO.FS.Stream) (f : List String → String) : IO Unit := do
